@@ -78,7 +78,7 @@ PKG_SCOPE = "model files of the package are hand-written transcriptions tied by 
 
 prop(
     "C03",
-    ["LolHtml.Thm.C03_Sim", "LolHtml.Thm.C03_Ref", "LolHtml.Thm.C03_Strict", "LolHtml.Thm.C03_Trace"],
+    ["LolHtml.Thm.C03_Sim", "LolHtml.Thm.C03_Ref", "LolHtml.Thm.C03_Strict", "LolHtml.Thm.C03_Trace", "LolHtml.Thm.Full2"],
     [{"lane": "hash", "n_quick": 3000, "n_thorough": 40000},
      {"lane": "lex", "n_quick": 3000, "n_thorough": 100000},
      {"lane": "h5", "n_quick": 3000, "n_thorough": 60000, "impl_only": True}],
@@ -113,7 +113,7 @@ prop(
 
 prop(
     "C04",
-    ["LolHtml.Thm.C04_VM", "LolHtml.Thm.C04_Pure", "LolHtml.Thm.Full"],
+    ["LolHtml.Thm.C04_VM", "LolHtml.Thm.C04_Pure", "LolHtml.Thm.Full", "LolHtml.Thm.Full3"],
     [{"lane": "sel", "n_quick": 1500, "n_thorough": 20000},
      {"lane": "selpure", "n_quick": 2000, "n_thorough": 40000},
      {"lane": "full", "n_quick": 2000, "n_thorough": 40000}],
@@ -136,11 +136,11 @@ prop(
 
 prop(
     "C05",
-    ["LolHtml.Thm.C05_Scope", "LolHtml.Thm.Full"],
+    ["LolHtml.Thm.C05_Scope", "LolHtml.Thm.Full", "LolHtml.Thm.Full3"],
     [{"lane": "scope", "n_quick": 2000, "n_thorough": 10000},
      {"lane": "full", "n_quick": 2000, "n_thorough": 40000}],
     "lane scope: tag-event scripts (unclosed, mis-nested, void, foreign self-closing, removed content) x handler registrations (element/text/comments/end-tag/document) x cuts, real HtmlRewriter with logging handlers vs the model",
-    ["the matcher is an arbitrary function from start tags to sets of registered match ids (WfEvents); that the VM returns only registered ids is C04's",
+    ["the matcher is an arbitrary function from start tags to sets of registered match ids (WfEvents); that the VM returns only registered ids is C04's; the link is Thm/Full3: every protocol event of the real controller model that ends without error is exactly one Controller.step of this package's model on the projected state (Full_refines_scope_start/_end/_other), its handler invocations are Spec.Scope.expected (Full_event_C05), and the VM inside follows selvm's Vm.step (Full_vm_run) — lexer-mode calls; scanner hints rely on C06's relex agreement",
      "handler/memory errors, ESI tags, meta-charset handler id shift are not modelled", PKG_SCOPE],
     level_text=("Lean 4 theorems, for every handler script, registration, event list and matcher: the controller model refines a "
                 "reference scope specification (C05_refines), user counts equal the number of open matched elements "
@@ -241,7 +241,7 @@ prop(
 
 prop(
     "C12",
-    ["LolHtml.Thm.C12", "LolHtml.Thm.C12_Prefix", "LolHtml.Thm.Full"],
+    ["LolHtml.Thm.C12", "LolHtml.Thm.C12_Prefix", "LolHtml.Thm.Full", "LolHtml.Thm.Full2"],
     [{"lane": "fault", "n_quick": 4000, "n_thorough": 100000},
      {"lane": "full", "n_quick": 2000, "n_thorough": 40000},
      {"lane": "proto", "n_quick": 5000, "n_thorough": 100000, "impl_only": True}],
@@ -324,7 +324,7 @@ prop(
 
 prop(
     "C15",
-    ["LolHtml.Thm.C15_Core", "LolHtml.Thm.C15_Full", "LolHtml.Thm.C15_Linear", "LolHtml.Thm.Full"],
+    ["LolHtml.Thm.C15_Core", "LolHtml.Thm.C15_Full", "LolHtml.Thm.C15_Linear", "LolHtml.Thm.Full", "LolHtml.Thm.Full3"],
     [{"lane": "lex", "n_quick": 4000, "n_thorough": 200000},
      {"lane": "fault", "n_quick": 3000, "n_thorough": 60000},
      {"lane": "full", "n_quick": 2000, "n_thorough": 40000},
@@ -332,7 +332,7 @@ prop(
     LEX_RULE + "; every lane of the harness runs in a build with overflow checks and debug assertions, each case under catch_unwind (a panic is an observation `PANIC …`, compared with the model which makes every panic site explicit); lane patho (implementation only): pathological shapes (deep nesting, one giant tag name / attribute list / attribute value / comment / doctype, '<' and '</' runs, foreign content, script escapes, select, CDATA, random markup bytes, hundreds of selectors, random selector strings) at sizes up to 4*10^6 bytes, in one write and in 4 KiB writes, with a deterministic work oracle (bytes handed to Parser::parse, counted by a hook, <= 2*len + 4 KiB) and a hard CPU bound",
     ["covers the parser / dispatcher / transform-stream core; panics in selectors/cssparser/encoding_rs/std and in the packages' own scopes (selector VM: C04_vm_never_panics; handlers: C05_no_panic; memory: C10_error_not_panic; nth: C04_nth_total) are those packages' theorems",
      "the two former open sites (U2: 'Tag should be a start tag at this point', RequestLexeme callback assertion) are closed by C15_no_panic_full at the cost of one more decidable table side-condition RelexSide (HeadOk, RelexOk, TextTypeOk, PhaseOk: the token-kind agreement between scanner and re-lexing lexer is a property of the table), decided on the regenerated table on every run",
-     "CtlClean quantifies over all controller states; the real controller model (Model/Full) satisfies it only on states reachable in runs (Full_not_ctlClean: the aux-info continuation without a pending request is rewrite_controller.rs's 'vm req without vm' branch) — the Full-model panic sites are covered by Full_descs_in_sync / Full_vec_loops_never_fail / Full_handleEnd_clean, the combined statement Full_no_panic_statement is not proved",
+     "CtlClean quantifies over all controller states; the real controller model (Model/Full) satisfies it only on states reachable in runs (Full_not_ctlClean: the aux-info continuation without a pending request is rewrite_controller.rs's 'vm req without vm' branch) — no callback-closed state invariant can repair this (Full_ctlClean_unattainable: a call ORDER the dispatcher never produces reaches the stale-locator debug_assert in HandlerVec::inc_user_count; Full_no_state_invariant_suffices), so C15_no_panic_full does not instantiate at the real controller as stated. Proved instead (Thm/Full3, Full_no_panic_protocol): along every protocol-conforming event sequence from the initial state of ANY configuration the controller ends fault-free in the joint invariant (typing, scope Inv, selector-VM SemInv), stops with a content-handler error, or stops at one of three residual glue sites (attribute raw slice out of range, token range before the slice base, end-tag payload missing); every VM panic, dispatcher locator / match-id / refcount panic, stack desynchronisation and 'vm req without vm' is excluded. Not proved: that the core dispatcher's calls always form such a sequence (Full_protocol_statement) and hence Full_no_panic_statement",
      "work bound: C15_linear_parse (one parse call makes <= 32(|slice|+1) state invocations) and C15_work_linear_when_drained (total work linear when each write leaves <= K retained bytes); without draining the bytes handed to the parser grow quadratically: C15_work_quadratic_witness = known finding F29",
      "known finding F29: a token spanning many writes is re-lexed from its start on every write (quadratic work), found by lane patho",
      "the controller itself never returns a panic/internal-class error (CtlClean)", MODEL_SCOPE],
@@ -379,11 +379,12 @@ prop(
 
 prop(
     "C06",
-    ["LolHtml.Thm.C06_Scan", "LolHtml.Thm.C06_Relex", "LolHtml.Thm.C06_Indep", "LolHtml.Thm.Full"],
+    ["LolHtml.Thm.C06_Scan", "LolHtml.Thm.C06_Relex", "LolHtml.Thm.C06_Indep", "LolHtml.Thm.C06_Handover", "LolHtml.Thm.C06_EndTag", "LolHtml.Thm.Full"],
     [{"lane": "lex", "n_quick": 4000, "n_thorough": 200000},
      {"lane": "full", "n_quick": 2000, "n_thorough": 40000}],
     LEX_RULE + "; oracle: every schedule S is also run as S u O for four observer sets O (TEXT, COMMENTS, DOCTYPES, every tag) and the events H would receive, the result and the sink bytes must be identical",
-    ["independence is proved for the lexer half (C06_independence_partial): for H whose flag sets always contain text, comments or doctypes (StickyCtl: H never drops to the tag scanner) and any observer set O, both modes, every chunking: same call results and same final state of H (H arbitrary, so its events), and same sink bytes for observer-only H (C06_independence_observing); with Model/Full, any two non-mutating configurations give the same output on successful runs (C06_real_output). The scanner<->lexer half (H's flags become empty) has the step simulation, boundary agreement and C06_relex_same_tag, but the dispatcher-level induction over hand-overs is not done: C06_independence_statement stays a statement + oracle there",
+    ["independence is proved for the lexer half (C06_independence_partial): for H whose flag sets always contain text, comments or doctypes (StickyCtl: H never drops to the tag scanner) and any observer set O, both modes, every chunking: same call results and same final state of H (H arbitrary, so its events), and same sink bytes for observer-only H (C06_independence_observing); with Model/Full, any two non-mutating configurations give the same output on successful runs (C06_real_output). The scanner<->lexer half (H's flags become empty) has the step simulation, boundary agreement, C06_relex_same_tag / C06_relex_end_tag (both hint directions) and one-event preservation lemmas at dispatcher level for every event kind in every mode combination (Thm/C06_Handover: C06_event_*), but the parser-level alignment of scanner hints with the observing lexer's lexemes (induction over hand-overs and chunk breaks) is not done: C06_independence_statement2 (non-strict, no memory-limit error, EmitDiscipline, PassThrough) stays a statement + oracle there",
+     "exceptions proved as witnesses on the model: C06_F27_witness (strict mode, known finding F27) and C06_memory_witness (limit 4 bytes, `<!--aaaaaaaa`: the scanner run succeeds, the lexer run reports MemoryLimitExceeded — the retained bytes differ between the modes, so the limit is mode-dependent)",
      "known finding F27: strict-mode ParsingAmbiguity on an unterminated tag at end of input depends on the handler set",
      MODEL_SCOPE],
     level_text=("Lean 4 theorems over the two action sets running the same table: one state-function step from related "
